@@ -213,6 +213,12 @@ class SSHLocalForwarder(SSHForwarder):
 
         assert self._peer is not None
 
+        if not self._transport:
+            # The local connection was lost while the channel was being
+            # opened: there is nothing to forward, close the channel
+            self.close()
+            return
+
         if self._inpbuf:
             self._peer.write(self._inpbuf)
             self._inpbuf = b''
